@@ -56,6 +56,7 @@ def run(ctx: Ctx, env):
     literal_kinds = {k for k in schema.concrete() if schema.is_sub(k, "_Literal")} - EXEMPT_KINDS
     orm = [v for v in H.visitors() if "django" in v or "sqlalchemy" in v]
     ctx.floor("ORM visitors", len(orm), 3)
+    _annotation_names(ctx, env)  # syntactic; first, so that it is decided even when the evaluation below cannot finish
     for vcls in orm:
         vs = H.short(vcls)
         n_flows = 0
@@ -106,7 +107,6 @@ def run(ctx: Ctx, env):
         ctx.floor(f"{vs}: literal value flows", n_flows, 8)
         ctx.analysed[f"{vs}.flows"] = n_flows
 
-    _annotation_names(ctx, env)
     ctx.trust("Django Value / GEOSGeometry-as-lookup-value / Q(**{lookup: value}) and SQLAlchemy literal / bindparam produce bound parameters")
 
 
@@ -190,7 +190,7 @@ def _annotation_names(ctx: Ctx, env):
             for x in ast.walk(fn):
                 if isinstance(x, ast.Call) and isinstance(x.func, ast.Attribute) and isinstance(x.func.value, ast.Name) \
                         and x.func.value.id == "self" and x.func.attr in entry:
-                    if not (_guarded_by_lt4(fn, x) and lt4 is False):
+                    if not (_guarded_by_lt4(fn, x, repo, m) and lt4 is False):
                         entry.add(n)
                         changed = True
                         break
@@ -201,18 +201,18 @@ def _annotation_names(ctx: Ctx, env):
                 continue
             if n in entry and n not in ("visit",):
                 # internal call between the helpers: guarded by their own entry conditions
-                guarded = _guarded_by_lt4(fn, x) and lt4 is False
+                guarded = _guarded_by_lt4(fn, x, repo, m) and lt4 is False
                 if guarded or n in unwrap:
                     continue
                 if _first_arg_is(x, "node.lhs") or _first_arg_is(x, "node.rhs"):
-                    ctx.check(_guarded_by_lt4(fn, x) and lt4 is False, "R2.annotation-alias-free-of-values", f"{n}->{x.func.attr}",
+                    ctx.check(_guarded_by_lt4(fn, x, repo, m) and lt4 is False, "R2.annotation-alias-free-of-values", f"{n}->{x.func.attr}",
                               "a value-bearing expression can reach the annotation-name helper", m.loc(x))
                 continue
             arg = ast.unparse(x.args[0]) if x.args else ""
             if arg == "node.owner" and n == "visit_CollectionLambda" and owner_kinds is not None and owner_kinds.kinds <= {"Identifier", "Attribute"}:
                 ctx.ok("R2.annotation-alias-free-of-values", f"{n}->{x.func.attr}", "argument is a lambda owner: identifiers/paths only (Core F)")
                 continue
-            if _guarded_by_lt4(fn, x) and lt4 is False:
+            if _guarded_by_lt4(fn, x, repo, m) and lt4 is False:
                 ctx.ok("R2.annotation-alias-free-of-values", f"{n}->{x.func.attr}", "behind `if not DJANGO_LT_4: return`; installed Django >= 4")
                 continue
             ctx.fail("R2.annotation-alias-free-of-values", f"{n}->{x.func.attr}",
@@ -224,15 +224,25 @@ def _first_arg_is(call: ast.Call, text: str) -> bool:
     return bool(call.args) and ast.unparse(call.args[0]) == text
 
 
-def _guarded_by_lt4(fn: ast.FunctionDef, call: ast.Call) -> bool:
-    """Is the call preceded, at the top level of fn, by `if not DJANGO_LT_4: return ...`, or nested under `if DJANGO_LT_4:`?"""
+def _guarded_by_lt4(fn: ast.FunctionDef, call: ast.Call, repo=None, m=None) -> bool:
+    """Is the call unreachable with the installed Django: preceded, at the top level of fn, by an `if` whose test folds to
+    True and whose body leaves the function, or nested under an `if` whose test folds to False?"""
+    def folds_to(test, want: bool) -> bool:
+        if repo is None:
+            return ast.unparse(test) == ("not DJANGO_LT_4" if want else "DJANGO_LT_4")
+        try:
+            v = repo.fold(m, test)
+        except Exception:
+            return False
+        return isinstance(v, bool) and v is want
+
     for st in fn.body:
         if st.lineno >= call.lineno:
             break
-        if isinstance(st, ast.If) and ast.unparse(st.test) == "not DJANGO_LT_4" and st.body and isinstance(st.body[-1], ast.Return):
+        if isinstance(st, ast.If) and st.body and isinstance(st.body[-1], (ast.Return, ast.Raise)) and folds_to(st.test, True):
             return True
     for n in ast.walk(fn):
-        if isinstance(n, ast.If) and ast.unparse(n.test) == "DJANGO_LT_4":
+        if isinstance(n, ast.If) and folds_to(n.test, False):
             if any(x is call for b in n.body for x in ast.walk(b)):
                 return True
     return False
